@@ -14,7 +14,7 @@ from vf.ref import ordref
 META = {
     "level": "exploration",
     "rule": ("ALL interleavings to depth 9 (quick) / 13 (thorough), pruned by visited (order, exchange, queues) state, over client actions {new, cancel, "
-             "replace price, replace qty up, replace qty down, process next report} and exchange actions {pending-new, ack, reject, work next request "
+             "replace price, replace qty up, replace qty down, replace without any change (must be refused and leave the order untouched), process next report} and exchange actions {pending-new, ack, reject, work next request "
              "(pending / accept / reject), resolve a pending request, partial fill, full fill, expire, suspend, resume, unsolicited cancel}; plus "
              "random walks of 40 steps with roots over printable ASCII (incl. '--', digits) and quantities 1..10^6; after every step: status is an "
              "FOrdStatus member, can_cancel/can_replace true => no request outstanding, building the request succeeds, its ClOrdID was never used "
@@ -49,7 +49,7 @@ class World:
 
     def key(self):
         o = self.o
-        return (str(o.status), o.clord_id, o.orig_clord_id, o.cum_qty, o.leaves_qty, o.price, o.qty, o._clord_id_cnt, self.x.key(),
+        return (str(o.status), o.clord_id, o.orig_clord_id, o.cum_qty, o.leaves_qty, o.price, o.qty, getattr(o, "_clord_id_cnt", None), self.x.key(),
                 tuple(tuple(sorted((k, str(v)) for k, v in r.items())) for r in self.reports), tuple(self.outstanding))
 
     def clone(self):
@@ -74,7 +74,7 @@ class World:
                 if o.can_cancel():
                     a.append("c:cancel")
                 if o.can_replace():
-                    a += ["c:replace-px", "c:replace-qty-up", "c:replace-qty-down"]
+                    a += ["c:replace-px", "c:replace-qty-up", "c:replace-qty-down", "c:replace-noop"]
             except Exception:
                 pass
         if self.reports:
@@ -123,7 +123,22 @@ def apply(acc, w, action, cid):
                                                "pending": x.pending}}, cid)
         raise Stop()
     w.trace.append(action)
-    if action.startswith("c:") and action != "c:process-report":
+    if action == "c:replace-noop":
+        # a replace that changes nothing is refused; a refused request must leave the order exactly as it was
+        snap = (o.clord_id, o.orig_clord_id, str(o.status), o.price, o.qty)
+        acc.oracle("request-buildable")
+        try:
+            [lambda: o.replace_req(), lambda: o.replace_req(price=o.price, qty=o.qty), lambda: o.replace_req(qty=0)][len(w.trace) % 3]()
+            V("no-change-replace-not-refused", "replace_req() without a price or quantity change returned a message")
+        except FIXError:
+            pass
+        except Stop:
+            raise
+        except Exception as e:
+            V(f"no-change-replace-raised:{type(e).__name__}", repr(e))
+        if (o.clord_id, o.orig_clord_id, str(o.status), o.price, o.qty) != snap:
+            V("refused-request-changes-order", f"a refused replace left the order at {(o.clord_id, o.orig_clord_id, str(o.status))}, before {snap[:3]}")
+    elif action.startswith("c:") and action != "c:process-report":
         kind = action[2:]
         try:
             if kind == "new":
